@@ -36,8 +36,8 @@ func newPlainEntries(cs *cache, keys *keyPool, kvs kv.IKVStore) entryManager {
 	}
 }
 
-func (pe *plainEntries) record(wb kv.IWriteBatch,
-	shardID uint64, replicaID uint64, ctx IContext, entries []pb.Entry) uint64 {
+func (pe *plainEntries) record(wb kv.IWriteBatch, shardID uint64,
+	replicaID uint64, ctx IContext, entries []pb.Entry) (uint64, error) {
 	idx := 0
 	maxIndex := uint64(0)
 	for idx < len(entries) {
@@ -56,7 +56,7 @@ func (pe *plainEntries) record(wb kv.IWriteBatch,
 		}
 		idx++
 	}
-	return maxIndex
+	return maxIndex, nil
 }
 
 func (pe *plainEntries) iterate(ents []pb.Entry, maxIndex uint64,
